@@ -19,13 +19,13 @@ claimed = {
   technique=SIM + ": operation-level seeded schedule incl. a window-level yield inside writeSnapshotAndCommit, LWW model comparison after every step",
   ref="3 C02"),
  "C03": dict(
-  text="One batch written by the real PointsWriter to a shard with 1-5 owners on the fake clock; coordinator position, consistency level, per-owner outcome and answer time (before/after the timeout), busy handoff queue, handoff accept/refuse are drawn; success iff the level was met within the timeout, partial/failed classification, exactly-once handoff offers; in half of the runs hinted handoff is the real hh.Service whose queues must deliver after the owners heal. Cluster mode (one run in eight): the whole write path with real components - 2-4 real data nodes (store, coordinator.Service behind tcp.Mux, ShardWriter with pools, PointsWriter, the real hinted-handoff service) on the simulated network and clock; the coordinator writes batches at drawn levels while other nodes are down, refuse, stall, reset, answer slowly or fail their local write; at the acknowledgement the points must be on as many owners as the level demands (any: stored or queued), after the heal everything handoff accepted must reach every reachable owner, and no owner may hold unwritten data.",
+  text="One batch written by the real PointsWriter to a shard with 1-5 owners on the fake clock; coordinator position, consistency level, per-owner outcome and answer time (before/after the timeout), busy handoff queue, handoff accept/refuse are drawn; success iff the level was met within the timeout, partial/failed classification, exactly-once handoff offers; in half of the runs hinted handoff is the real hh.Service whose queues must deliver after the owners heal. Cluster mode (one run in eight): the whole write path with real components - 2-4 real data nodes (store, coordinator.Service behind tcp.Mux, ShardWriter with pools, PointsWriter, the real hinted-handoff service) on the simulated network and clock; the coordinator writes batches at drawn levels - one in six with a field-type conflict every owner rejects for good - while other nodes are down, refuse, stall, reset, answer slowly, answer only after the writer's timeout (connection left open) or fail their local write, and pooled connections are reset when a node's fault changes; at the acknowledgement the points must be on as many owners as the level demands (any: stored or queued), after the heal everything handoff accepted must reach every reachable owner, no owner may hold unwritten data, and no client may take a reply sent before its current request arrived for the answer to it (simnet stale-reply oracle).",
   note="owners' stores and the meta client are stubs; answer times are distinct and never equal to the timeout so every race is decided by the plan; in cluster mode a node taken down stays down and the metadata is generated, not served by meta nodes",
   technique=SIM + ": testing/synctest fake clock, scripted owner outcomes/delays as the fault space, plan-derived oracle",
   ref="3 C03"),
  "C04": dict(
-  text="The real hinted-handoff queue driven by seeded appends/deliveries/Empty checks/segment-size changes/purges/reopens with crash images crafted at its write events (any prefix of the in-flight write persisted), every image reopened, drained and driven further (depth 3); plus the real NodeProcessor on the fake clock against a scripted target (ok / retryable / lost ack / permanent rejection) and node removal, with bounded liveness after faults stop.",
-  note="a queue write may persist as any prefix until the following Sync returns (8-byte footer rewrites taken as atomic); file times stamped from the simulated clock; the torn-append format weakness is a listed known finding; the buffered (>=10 concurrent writers) path is left to C19",
+  text="The real hinted-handoff queue driven by seeded appends/deliveries/Empty checks/segment-size changes/purges/reopens with crash images crafted at its write events (any prefix of the in-flight write persisted), every image reopened, drained and driven further (depth 3); with deliveries that follow NodeProcessor.SendWrite's protocol (0-3 appends between the empty read and TrimExhausted); plus the real NodeProcessor on the fake clock with the default or a small segment size (several segments) against a scripted target (ok / retryable / lost ack / permanent rejection), node removal and 1-3 writes landing in the window between the processor's empty read and its skip of the exhausted segment, with bounded liveness after faults stop.",
+  note="a queue write may persist as any prefix until the following Sync returns (8-byte footer rewrites taken as atomic); file times stamped from the simulated clock; the torn-append format weakness is a listed known finding; the buffered (>=10 concurrent writers) path is driven by holding the write limiter's tokens",
   technique=SIM + ": crash images from pre/post file content at verifhook write events, FIFO queue reference model, fake-clock processor runs",
   ref="3 C04"),
  "C06": dict(
@@ -79,7 +79,7 @@ claimed = {
   technique=SIM + ": testing/synctest fake clock driving the real service loop, expiry predicate restated in the harness, injected errors",
   ref="3 C17"),
  "C05": dict(
-  text="A cluster of 2-4 real data nodes (real tsdb.Store, coordinator.Service behind the real tcp.Mux, MetaExecutor, ClusterShardMapper, query.Executor, meta.Client over a generated meta.Data) on the simulated network; replication 1-n, 1-3 shard groups, 0-4 owner copies/removals, 1-40 points placed on every owner; a drawn coordinator executes 1-5 statements (raw/aggregate/grouped/time-bounded SELECT, SHOW metadata lookups, EXPLAIN) while every other node has one fault kind: down, refuses, slow+fragmented, stalls, resets at request time, resets or closes cleanly mid-stream, answers with an error, is up with disabled shards. Oracle: the same statement on a single-node reference holding the union of the data; success must equal it, a failure is only allowed when a shard has no healthy reachable owner or a fault hit mid-stream; a statement must return within 2 simulated minutes.",
+  text="A cluster of 2-4 real data nodes (real tsdb.Store, coordinator.Service behind the real tcp.Mux, MetaExecutor, ClusterShardMapper, query.Executor, meta.Client over a generated meta.Data) on the simulated network; replication 1-n, 1-3 shard groups, 0-4 owner copies/removals, 1-40 points placed on every owner; a drawn coordinator executes 1-5 statements (raw/aggregate/grouped/time-bounded SELECT, wildcard SELECTs whose fields and tags are looked up on the owners, SHOW metadata lookups, EXPLAIN) while every other node has one fault kind: down, refuses, slow+fragmented, answers only after the asker's timeout (connection left open), stalls, resets at request time, resets or closes cleanly mid-stream, answers with an error, is up with disabled shards. Oracle: the same statement on a single-node reference holding the union of the data; success must equal it, a failure is only allowed when a shard has no healthy reachable owner or a fault hit mid-stream; a statement must return within 2 simulated minutes; no client may take a reply sent before its current request arrived for the answer to it (simnet stale-reply oracle).",
   note="meta.Data is generated and installed in every node's meta client (no raft traffic); hinted handoff is stubbed off; storage reads (ReadFilter/ReadGroup of the storage service) are not driven; equal-timestamp rows of different series are compared as a multiset; six shapes of silently incomplete success are listed known findings (clean close mid-stream, faulty owner answering type/metadata lookups as empty, metadata lookups ignoring node errors, unknown field type when the sole owner is unreachable); residual nondeterminism of the Go runtime (map iteration, select) means a replay is attempted up to 12 times",
   technique=SIM + ": in-process cluster on a simulated network with per-connection fault policies, reference-cluster comparison, fake clock for timeouts",
   ref="3 C05"),
